@@ -33,15 +33,21 @@ def nontriv(c, m):
 
 
 TS = re.compile(r'^\[\s*(\d+)([.,])(\d{3})\]')
+TS_ANY = re.compile(r'\[\s*(\d+)([.,])(\d{3})\]')
+
+
+TAIL = re.compile(r'( \{[^}]*\})?( <\w+>)?(  -> | )\w+[@#]\d+\.\w+\(')
 
 
 def shift_line(line, c_us):
-    m = TS.match(line)
-    if not m:
-        return line
-    us = int(m.group(1)) * 1000 + int(m.group(3)) + c_us
-    body = '%d%s%03d' % (us // 1000, m.group(2), us % 1000)
-    return '[%s]' % body.rjust(10) + line[m.end():]
+    # the time stamp of the MESSAGE: the leftmost one that is followed by a message (program output glued in front of the
+    # message may itself contain something that looks like a time stamp)
+    for m in TS_ANY.finditer(line):
+        if TAIL.match(line, m.end()):
+            us = int(m.group(1)) * 1000 + int(m.group(3)) + c_us
+            body = '%d%s%03d' % (us // 1000, m.group(2), us % 1000)
+            return line[:m.start()] + '[%s]' % body.rjust(10) + line[m.end():]
+    return line
 
 
 def extra(res, rnd, cases):
